@@ -20,7 +20,7 @@ From Coq Require Import List ZArith Reals.
 From OW Require Import Base.Arith Base.RInst Base.FInst Base.Mealy.
 From OW Require Import KernelProofs.HotStart KernelProofs.HotStartStateless KernelProofs.HotStartConstituent
   KernelProofs.HotStartRR KernelProofs.HotStartRouting KernelProofs.HotStartStorage KernelProofs.HotStartReal
-  KernelProofs.HotStartWitness.
+  KernelProofs.HotStartWitness KernelProofs.HotStartSRTol.
 From OW Require Import Kernels.Muskingum Kernels.Lag Kernels.StorageRouting Kernels.LumpedConstituent Kernels.Decay
   Kernels.InstreamFineSediment Kernels.InstreamCoarseSediment Kernels.InstreamParticulateNutrient
   Kernels.SedimentTrapping Kernels.TrapAll Kernels.DissolvedDecay Kernels.InstreamDissolvedNutrient Kernels.Storage
@@ -267,6 +267,31 @@ Theorem C06_storage_routing_split_early_exit : forall (T : Type) (A : Arith T) (
 Proof. exact (@storage_routing_kernel_split_early_exit). Qed.
 Print Assumptions C06_storage_routing_split_early_exit.
 
+(** "within the solver's own mass-balance tolerance", over the reals: at the first step after a cut of a
+    zero-bias reach (S = k q^m + dead, k >= 0, 0 < m <= 1), the restarted run (guess 0) and the uninterrupted
+    run (carried guess) end the step with storages and outflow volumes less than 2 * massBalanceLimit = 2e-3 m3
+    apart, unless the solver left unconverged (exit path 7).  (Later steps: tested, 2e-3 m3 per cut.) *)
+Theorem C06_storage_routing_split_within_tol :
+  forall bias k m area dead dt (s1 : sr_state (T := R)) x s2 out sto path s2' out' sto' path',
+  (Rabs bias < 1 / 1000)%R -> (0 <= k)%R -> (0 < m <= 1)%R -> (0 < dt)%R ->
+  let p := sr_setup (A := RArith) bias k m area dead dt in
+  sr_step p s1 x = Some (s2, (out, sto, path)) ->
+  sr_step p (sr_forget_qi s1) x = Some (s2', (out', sto', path')) ->
+  path <> 7%nat -> path' <> 7%nat ->
+  (Rabs (sto - sto') < 2 * (1 / 1000) /\ Rabs (out - out') * dt < 2 * (1 / 1000))%R.
+Proof. exact storage_routing_split_within_tol. Qed.
+
+(** the same for any parameters for which the storage-discharge relation S(q) is non-decreasing *)
+Theorem C06_storage_routing_cut_step_within_tol :
+  forall (p : sr_params (T := R)) i l S rate, (0 < p_dt p)%R ->
+  (forall a b, (a <= b)%R -> (s_index p a <= s_index p b)%R) ->
+  forall pq pq' qi out sto path qi' out' sto' path',
+  calc_outflow p i l pq S rate = Some (qi, out, sto, path) ->
+  calc_outflow p i l pq' S rate = Some (qi', out', sto', path') ->
+  path <> 7%nat -> path' <> 7%nat ->
+  (Rabs (sto - sto') < 2 * (1 / 1000) /\ Rabs (out - out') * p_dt p < 2 * (1 / 1000))%R.
+Proof. exact sr_cut_step_within_tol. Qed.
+
 (* ------------------------------------------------------------------ Storage *)
 (** level and area are recomputed from the volume by every call: exact whenever the first segment
     returns (its time steps and the level/area lookup at the cut volume do not panic) *)
@@ -332,7 +357,7 @@ Proof. exact date_generator_kernel_split_refuted. Qed.
 (* ------------------------------------------------------------------ the real-number statements: assumptions *)
 Definition C06_real_number_statements :=
   (C06_gr4j_kernel_R, C06_instream_fine_sediment_R, C06_storage_trap_all_R, C06_sacramento_split_partial,
-   C06_date_generator_split_refuted).
+   C06_date_generator_split_refuted, C06_storage_routing_split_within_tol, C06_storage_routing_cut_step_within_tol).
 Print Assumptions C06_real_number_statements.
 Definition C06_stateless_statements := (@C06_apply_scaling_factor_kernel, @C06_delivery_ratio_kernel, @C06_depth_to_rate_kernel, @C06_fixed_partition_kernel, @C06_variable_partition_kernel, @C06_rating_curve_partition_kernel, @C06_baseflow_filter_kernel, @C06_compute_proportion_kernel, @C06_gate_kernel, @C06_partition_demand_kernel, @C06_sum_kernel, @C06_emc_dwc_kernel, @C06_fixed_concentration_kernel, @C06_pass_load_if_flow_kernel, @C06_dissolved_nutrients_kernel, @C06_particulate_nutrients_kernel, @C06_bank_erosion_kernel, @C06_usle_fine_kernel, @C06_dynamic_sednet_gully_kernel, @C06_dynamic_sednet_gully_alt_kernel, @C06_climate_variables_kernel, @C06_runoff_coefficient_kernel).
 Print Assumptions C06_stateless_statements.
